@@ -1,6 +1,12 @@
 """C16 — a data frame is a faithful table (nixio/data_frame.py, Block.create_data_frame, hdf5/h5dataset.py).
 
-Model: lean/NixModel/Pure/Frame.lean; theorems: lean/NixModel/Props/C16.lean; driver: lean/Driver/C16.lean.
+Model: lean/NixModel/Pure/Frame.lean (abstract table), Pure/FrameRec.lean (rows / creation data given as NumPy
+structured arrays), Pure/FrameBytes.lean (the table as stored: text cells as UTF-8 bytes, raw and converted rows as in
+the code — the machine the driver runs); theorems: lean/NixModel/Props/C16.lean; driver: lean/Driver/C16.lean.
+
+A line of the protocol whose rows are handed over as a structured array carries a trailing presentation object
+{"rec": [[field name, field type], ...], "mem": [memory rank per field], "pad": n, "how": "array" | "view" | "voids" |
+"frame"} (see Session.rec); the model takes such rows by position whatever the field names and the layout are.
 
 Correspondence: histories are generated *online* against the real nixio (real HDF5 files under ctx.scratch): every
 operation is drawn from the frame's current schema and row count, executed, and followed by a full dump; the
@@ -72,6 +78,13 @@ ASSUMPTIONS = [
     "unit strings are fixed points of units.sanitizer (C09 covers the sanitizer)",
     "OverflowError is canonicalised to ValueError, DuplicateColumnName to DuplicateName, h5py's OSError for an "
     "out-of-extent selection to IndexError",
+    "rows given as a NumPy structured array hold, per field, cells of one kind that the positional conversions "
+    "(tuple by tuple and NumPy's structured cast) treat alike: well-typed cells, bool / small int / float cells for "
+    "numeric columns; an out-of-range integer field handed to create_data_frame is cast by NumPy without a check "
+    "(outside the modelled domain, as for write_column); np.recarray (np.record rows) is not a structured-array "
+    "creation variant for the code (type(data[0]) == np.void)",
+    "read_columns(group_by_cols=True) is modelled for requested columns of one kind (NumPy converts columns of "
+    "different kinds to a common type when it builds the 2-D result: numbers become strings next to a text column)",
     "frame names / block-level state are outside the single-frame model (duplicate frame name is an oracle case)",
     "closing and reopening the file is the identity in the model; tied by reopen operations inside the generated "
     "histories",
@@ -1762,31 +1775,41 @@ def replay_failure(ctx, fj):
 
 READY = True
 MANIFEST = {
-    "level_text": "Kernel-checked theorems over a Lean model of DataFrame (data_frame.py) and create_data_frame: for "
-                  "every frame reachable from any of the four creation variants by any history of operations, an "
-                  "accepted append/overwrite of rows, a column or a cell (by index or name, negative indices "
-                  "included) is what read_rows / the cell reads return, converted to the column type (identity on "
-                  "well-typed cells); every read API (read_rows by int and list, read_cell by position and name, "
-                  "read_columns by index and name with any slice) is proved to be a view of the one stored table, "
-                  "so what was written is what each of them returns; no operation, accepted or refused, changes a "
-                  "cell it does not address; row and column counts, names, types, units and `columns` describe "
-                  "the stored table (invariant by induction over the history); every refused write leaves the "
-                  "table unchanged (no exception left: write_column was made all-or-nothing by a fix: commit), and "
-                  "each refusal class of the property (wrong length, unknown column, out-of-range row, duplicate "
-                  "column name, also unordered/repeated row indices and unfit cells) is proved to be refused; the "
-                  "schema and the rows each creation variant derives are theorems. The hand-written model is tied "
-                  "to the code by differential histories generated online against real nixio on real HDF5 files "
-                  "(several live DataFrame objects per frame, reopen inside and at the end of every history) and "
-                  "by Generated/FrameShape.lean (guards, helper-call order and per-object state of every modelled "
-                  "method, regenerated from the source by an ast translator; three theorems compare it with the "
+    "level_text": "Kernel-checked theorems over a Lean model of DataFrame (data_frame.py), create_data_frame and the "
+                  "read path below it (DataSet.__getitem__, H5DataSet.read_data, _convert_string_cols): for every "
+                  "frame reachable from any of the four creation variants by any history of operations, an accepted "
+                  "append/overwrite of rows, a column or a cell (by index or name, negative indices included) is what "
+                  "read_rows / the cell reads return, converted to the column type (identity on well-typed cells); "
+                  "every read API (read_rows by int and list, read_cell by position and name, read_columns by index "
+                  "and name with any slice, also grouped by columns, frame[name], frame[lo:hi]) is proved to be a "
+                  "view of the one stored table; no operation, accepted or refused, changes a cell it does not "
+                  "address; row and column counts, names, types, units and `columns` describe the stored table "
+                  "(invariant by induction over the history); every refused write leaves the table unchanged and "
+                  "each refusal class of the property is proved to be refused; the schema and the rows each creation "
+                  "variant derives are theorems. Rows and creation data handed over as NumPy structured arrays "
+                  "(record arrays, multi-field views, np.void lists, rows read from another frame) are proved to be "
+                  "taken by position whatever the field names, offsets and padding are, and all history theorems are "
+                  "lifted to histories that use them. A second, byte-level model keeps text cells as UTF-8 bytes and "
+                  "follows the code in using raw rows (append_column, write_column) or rows converted by "
+                  "_convert_string_cols (every read, write_cell); it is proved to simulate the abstract model step by "
+                  "step for every history and to return the same from every read. The driver runs the byte-level "
+                  "machine; it is tied to the code by differential histories generated online against real nixio on "
+                  "real HDF5 files (several live DataFrame objects per frame, structured-array spellings of rows, "
+                  "reopen inside and at the end of every history) and by Generated/FrameShape.lean (guards, "
+                  "helper-call order and per-object state of every modelled method, and the read path statement by "
+                  "statement, regenerated from the source by an ast translator; four theorems compare it with the "
                   "shape the model was written against).",
-    "level_note": "Partial aspects: h5py/libhdf5 storage, NumPy scalar conversion and variable-length strings are "
-                  "modelled (conv), not verified; reopening is the identity in the model and carried by the "
-                  "correspondence; floats are exact rationals (no arithmetic is done on cells); numeric-literal "
-                  "strings, ints beyond 2^53 for float columns, out-of-range ints through write_column, NaN/inf, "
-                  "frame names, copy_from (oracle case only) and compression are outside the model. The shape "
-                  "theorems (guards / calls as modelled) are equalities between a regenerated and a hand-written "
-                  "table: they detect an edit of the source, they do not interpret it.",
-    "technique": "Lean 4 proof (induction over operation histories, list lemmas) with differential correspondence "
-                 "and an ast translator for the source shape",
+    "level_note": "Partial aspects: h5py/libhdf5 storage and NumPy scalar conversion are modelled (conv, enc), not "
+                  "verified; the UTF-8 round trip is Lean's own (String is a validated byte array); reopening is the "
+                  "identity in the model and carried by the correspondence; floats are exact rationals (no arithmetic "
+                  "is done on cells); numeric-literal strings, ints beyond 2^53 for float columns, out-of-range ints "
+                  "through write_column or inside a structured array given to create_data_frame (NumPy casts without "
+                  "a check), NaN/inf, frame names, copy_from (oracle case only), compression and group_by_cols over "
+                  "columns of different kinds are outside the model. The positional reading of a structured array is "
+                  "the model's definition (what the repaired code does); the theorems state that names and layout "
+                  "cannot matter, the differential runs check that the code agrees. The shape theorems are equalities "
+                  "between a regenerated and a hand-written table: they detect an edit of the source, they do not "
+                  "interpret it.",
+    "technique": "Lean 4 proof (induction over operation histories, simulation between a byte-level and an abstract "
+                 "model, list lemmas) with differential correspondence and an ast translator for the source shape",
 }
